@@ -743,4 +743,5 @@ impl fmt::Debug for Pos {
     }
 }
 
+pub mod dtm;
 pub mod selftest;
